@@ -1,5 +1,9 @@
 import DimodProofs.ContainerProofs
 import DimodProofs.JsonString
+import DimodProofs.JsonValue
+import DimodProofs.DqmFile
+import DimodProofs.LegacyProofs
+import DimodModel.HeaderDicts
 
 /-! # C09 — binary model files load back as the identical model
 
@@ -160,6 +164,86 @@ theorem dqm_file_roundtrip_partial (parse : Bytes → Option (Bool × H)) (parse
       .ok ((h, d, if labelled then some labels else none), []) := by
   obtain ⟨_, _, hc⟩ := Comp.dqm parse parseVars npLoad nvarsOf hdrText npz varsText labelled h d labels hh hz hsz hv
   simpa using hc.full []
+
+/-! ## round 2: JSON at text level for every label kind, DQM arrays, legacy CQM layout, header dictionaries -/
+
+/-- **labels at JSON-text level, every kind.**  `deserialize_variable(json.loads(text))` is the
+    label, where `text` is what `to_file` writes for it (optionally followed by blanks): integers,
+    strings, nested tuples, and floats in any of the forms `float.__repr__` produces (`JOK`:
+    sign, digits, optional fraction, optional exponent).  `loadsJ` models `json.loads` on these
+    texts (`NUMBER_RE`, `py_scanstring`, `JSONArray`).  What stays a contract is only IEEE's
+    `float(repr(x)) == x`: the model keeps a float as its text. -/
+theorem label_text_roundtrip (fixed : Bool) (l : FLabel) (hl : JOK (serializeLabel l)) (ws : List Char) (hws : Blank ws) :
+    (loadsJ (labelText fixed l ++ ws)).map deserializeLabel = some l :=
+  loads_labelText fixed l hl ws hws
+
+/-- the same for a whole label list as written in the `VARS` section, `variable_labels.json` and
+    the format-1 header: the JSON array followed by padding blanks parses back to the labels
+    (this is the `full` half of `JsonContract` for the real parser) -/
+theorem label_list_text_roundtrip (ls : List FLabel) (hl : JOKs (serializeLabels ls)) (ws : List Char) (hws : Blank ws) :
+    (loadsJ (dumpsJ (.arr (serializeLabels ls)) ++ ws)).map deserializeLabel = some (.tup ls) :=
+  loads_labelList ls hl ws hws
+
+/-- `json.loads(json.dumps(v)) = v` for every value built from integers, float texts, strings and
+    arrays, with or without the `/` escape inside strings -/
+theorem json_value_roundtrip (esc : Bool) (v : JVal) (hv : JOK v) (ws : List Char) (hws : Blank ws) :
+    loadsJ (dumpsE esc v ++ ws) = some v :=
+  loadsJ_dumpsE esc v hv ws hws
+
+/-- **DQM arrays.**  `from_numpy_vectors` applied to the arrays `to_numpy_vectors` produced, as
+    `np.savez` stores them (names, order, index dtype chosen from the number of cases, shapes,
+    payloads), rebuilds case starts, every linear bias, every case interaction and the offset. -/
+theorem dqm_vectors_roundtrip (c : DqmContent) (wf : DqmWF c) : dqmFromMembers (dqmMembers c) = .ok c :=
+  dqmFromMembers_members c wf
+
+/-- **DQM files**, lifting `dqm_file_roundtrip_partial`: under the npz *container* contract only
+    (`openNpz` on the blob gives the arrays written; `compress` changes the blob, not the arrays)
+    `from_file(to_file(dqm, ignore_labels=…))` returns the DQM content and the labels (none when the
+    header says index-labelled). -/
+theorem dqm_file_roundtrip (parse : Bytes → Option (Bool × H)) (parseVars : Bytes → Option (List J))
+    (openNpz : Bytes → Option (List NpyMember)) (hdrText npz varsText : Bytes) (labelled : Bool) (h : H) (c : DqmContent)
+    (labels : List J) (hh : HeaderOK parse hdrText (labelled, h)) (wf : DqmWF c)
+    (hz : ContainerContract openNpz npz (dqmMembers c)) (hsz : npz.length < 256 ^ 4)
+    (hv : labelled = true → VarsOK parseVars varsText labels ∧ labels.length = c.caseStarts.length) :
+    (dqmDecode parse parseVars (fun blob => (openNpz blob).bind fun ms => match dqmFromMembers ms with | .ok d => some d | _ => none)
+        (fun d => d.caseStarts.length)).run (dqmEncode hdrText labelled npz varsText) =
+      .ok ((h, c, if labelled then some labels else none), []) := by
+  have hc : ContainerContract (fun blob => (openNpz blob).bind fun ms => match dqmFromMembers ms with | .ok d => some d | _ => none) npz c :=
+    ⟨by simp [hz.full, dqmFromMembers_members c wf], fun j hj => by simp [hz.cut j hj]⟩
+  obtain ⟨_, _, hcomp⟩ := Comp.dqm parse parseVars _ (fun d : DqmContent => d.caseStarts.length) hdrText npz varsText labelled h c labels hh hc hsz hv
+  simpa using hcomp.full []
+
+/-- **the legacy CQM layout** (serialization versions 1.0–1.3, the layout of the bundled
+    `tests/data/cqm/*_v1.*.cqm` files): `_from_file_legacy` applied to an archive whose `objective`
+    and `constraints/<label>/lhs` members are complete QM or BQM files returns the objective
+    model and, per constraint, the left-hand-side model, right-hand side, sense, discrete mark,
+    weight and penalty. -/
+theorem cqm_legacy_roundtrip (parse : Bytes → Option (QHeader J)) (parseVars : Bytes → Option (List J))
+    (okLabel : List Char → Bool) (obj : MemberModel J) (objLabels : List J) (cs : List (LegacySrcConstraint J))
+    (lab : LegacySrcConstraint J → List J)
+    (hobj : obj.OK parse parseVars objLabels)
+    (hdirs : (∀ c ∈ cs, pathSafe c.lstr ∧ c.lstr ≠ []) ∧ (cs.map (·.lstr)).Nodup)
+    (hcs : ∀ c ∈ cs, LegacyConstraintWF parse parseVars (lab c) c ∧ okLabel c.lstr = true) :
+    legacyDecode true parse parseVars okLabel (legacyMembers obj cs) =
+      .ok { objective := obj.loaded objLabels, constraints := cs.map fun c => c.loaded (lab c) } :=
+  legacyDecode_members parse parseVars okLabel obj objLabels cs lab hobj hdirs hcs
+
+/-- the dictionary `BinaryQuadraticModel.to_file` builds is consistent with the content it
+    describes: its `shape` is (number of linear biases, number of lower-triangle entries) — the
+    `nlin` / `ninter` fields `BqmWF` asks for -/
+theorem bqm_header_dict_consistent (ver : Nat) (ignore : Bool) (vartype dsz isz : Nat) (c : QContent) (labels : List FLabel) :
+    ((bqmHeaderDict ver ignore vartype dsz isz c labels).toQHeader dsz isz vartype).nvars = c.linear.length ∧
+    ((bqmHeaderDict ver ignore vartype dsz isz c labels).toQHeader dsz isz vartype).ninter = totalDeg c.lower := by
+  refine ⟨rfl, ?_⟩
+  simp only [HeaderDict.toQHeader, bqmHeaderDict]
+  induction c.lower with
+  | nil => rfl
+  | cons r t ih => simp [rowsCount, totalDeg, ih]
+
+/-- floats: the `repr` forms are non-empty (e.g. `-0.25`, `1e+16`, `1.5e-07`) -/
+example : (FloatParts.mk true 0 ['2', '5'] none).OK ∧ (FloatParts.mk false 1 [] (some (['+'], ['1', '6']))).OK ∧
+    (FloatParts.mk false 1 ['5'] (some (['-'], ['0', '7']))).OK := by
+  refine ⟨⟨?_, ?_, ?_⟩, ⟨?_, ?_, ?_⟩, ⟨?_, ?_, ?_⟩⟩ <;> simp [isDigit] <;> decide
 
 /-! ## non-vacuity: the hypotheses are satisfiable (the driver's JSON oracle, a one-variable model) -/
 
